@@ -99,6 +99,10 @@ theorem parseIsoZone_offset (sg hh mm : Nat) (colon : Bool) (r : List Nat) (hsg 
 
 /-! ### whole texts -/
 
+/-- the ISO reader's `tm_year -= 1900` (generated constant) against libc's base -/
+theorem iso_year (y : Nat) : (y : Int) - (Gen.Date.isoYearSub : Nat) + tmYearBase = y := by
+  simp only [Gen.Date.isoYearSub, tmYearBase]; omega
+
 theorem sep_ok {sep : Nat} (h : sep = 84 ∨ sep = 116 ∨ sep = 32) : ¬ (toLower sep ≠ 116 ∧ sep ≠ 32) := by
   unfold toLower; split <;> omega
 
@@ -107,7 +111,7 @@ theorem parseIso_ext_short (y mo d : Nat) (hy : y < 10000) (hmo : mo < 100) (hd 
     parseIso (dig (y / 1000) :: dig (y / 100 % 10) :: dig (y / 10 % 10) :: dig (y % 10) :: 45 ::
         dig (mo / 10) :: dig (mo % 10) :: 45 :: dig (d / 10) :: dig (d % 10) :: []) =
       some ({ year := y, mon := (mo : Int) - 1, mday := d }, 0) := by
-  simp [parseIso, readDigits_print4, readDigits_print2, hy, hmo, hd, advanceIf_hit]
+  simp [parseIso, iso_year, readDigits_print4, readDigits_print2, hy, hmo, hd, advanceIf_hit]
 
 /-- `YYYYMMDD` -/
 theorem parseIso_basic_short (y mo d : Nat) (hy : y < 10000) (hmo : mo < 100) (hd : d < 100) :
@@ -115,7 +119,7 @@ theorem parseIso_basic_short (y mo d : Nat) (hy : y < 10000) (hmo : mo < 100) (h
         dig (mo / 10) :: dig (mo % 10) :: dig (d / 10) :: dig (d % 10) :: []) =
       some ({ year := y, mon := (mo : Int) - 1, mday := d }, 0) := by
   have h5 := dig_ne_45 (mo / 10)
-  simp [parseIso, readDigits_print4, readDigits_print2, hy, hmo, hd, advanceIf_miss _ _ _ h5]
+  simp [parseIso, iso_year, readDigits_print4, readDigits_print2, hy, hmo, hd, advanceIf_miss _ _ _ h5]
 
 /-- `YYYY-MM-DDThh:mm:ss` followed by a zone part -/
 theorem parseIso_ext_full (y mo d h mi s sep : Nat) (z : List Nat) (hsep : sep = 84 ∨ sep = 116 ∨ sep = 32) (hy : y < 10000) (hmo : mo < 100) (hd : d < 100)
@@ -125,7 +129,7 @@ theorem parseIso_ext_full (y mo d h mi s sep : Nat) (z : List Nat) (hsep : sep =
         dig (h / 10) :: dig (h % 10) :: 58 :: dig (mi / 10) :: dig (mi % 10) :: 58 :: dig (s / 10) :: dig (s % 10) :: z) =
       (parseIsoZone z).bind (fun off =>
         some ({ year := y, mon := (mo : Int) - 1, mday := d, hour := h, min := mi, sec := s }, off)) := by
-  simp [parseIso, readDigits_print4, readDigits_print2, hy, hmo, hd, advanceIf_hit, sep_ok hsep,
+  simp [parseIso, iso_year, readDigits_print4, readDigits_print2, hy, hmo, hd, advanceIf_hit, sep_ok hsep,
     parseIsoClock_ext, hh, hmi, hs]
 
 /-- `YYYYMMDDThhmmss` followed by a zone part -/
@@ -137,7 +141,7 @@ theorem parseIso_basic_full (y mo d h mi s sep : Nat) (z : List Nat) (hsep : sep
       (parseIsoZone z).bind (fun off =>
         some ({ year := y, mon := (mo : Int) - 1, mday := d, hour := h, min := mi, sec := s }, off)) := by
   have h5 := dig_ne_45 (mo / 10)
-  simp [parseIso, readDigits_print4, readDigits_print2, hy, hmo, hd, advanceIf_miss _ _ _ h5, sep_ok hsep,
+  simp [parseIso, iso_year, readDigits_print4, readDigits_print2, hy, hmo, hd, advanceIf_miss _ _ _ h5, sep_ok hsep,
     parseIsoClock_basic, hh, hmi, hs]
 
 end AwsVerif.Proofs.C19
